@@ -73,6 +73,23 @@ def step (_ : Unit) (ws : List String) : Unit × String :=
       match parseROps? ops with
       | some ops => "ok " ++ showQueues (routerRun ops)
       | none => "bad-op"
+    | ["world", n, ops] =>
+      -- ops: `<link>r<fn>` | `<link>p<fn>:<tag>` with a one-digit link number
+      let parsed : Option (List (Nat × ROp)) := if ops == "-" then some [] else
+        (ops.splitOn ",").mapM fun w =>
+          match w.toList with
+          | c :: rest => do
+            let l ← (String.ofList [c]).toNat?
+            let o ← parseROps? (String.ofList rest)
+            match o with
+            | [op] => pure (l, op)
+            | _ => none
+          | [] => none
+      match n.toNat?, parsed with
+      | some n, some ops =>
+        let w := worldRun ops
+        "ok " ++ " | ".intercalate ((List.range n).map fun i => showQueues (w i))
+      | _, _ => "bad-op"
     | ["rstream", regs, chunks] =>
       match parseNatList? regs, parseChunks? chunks with
       | some regs, some sock =>
